@@ -4,6 +4,7 @@ from vlib import run_pair
 PID = "C05"
 MODEL_VOS = ["model/ServerFront.vo", "model/UserTable.vo"]
 ASSUMPTIONS = [
+    'reflected server datagrams (datagrams the server itself emitted to a genuine client whose session is closed and cleaned, half of them lost on the way so that no replay record of the process knows them, sent to the server port from fresh addresses) are judged by the property text only (no datagram back, no session): the ServerFront model has no server-to-client segment types, so these probes are not part of the correspondence',
     "INT-CTXT of the AEAD is a hypothesis of every theorem (open_forged_none): a 72-byte header that no holder of a registered key produced opens under no registered key; 'holds no credential' means the first 72 bytes sent are not such a header",
     "user discovery: in the base theorems the candidate order is an arbitrary function with the premise cands_registered (only registered keys are tried); in C05_silent_tcp_discover / C05_silent_udp_discover / C05_attribution that premise is PROVED: the front door is instantiated with the discovery model of C07 (model/Discover.v try_state over one published generation of users, arbitrary hint function, arbitrary source-cache content, hint-mandatory switch), leaving INT-CTXT as the only cryptographic premise (plus, on UDP, the state invariant that existing sessions belong to registered users, which every step preserves)",
     "management events: which credentials are registered is a function of what the operator publishes (model/UserTable.v: compile_users = the admission rule, order and ids of buildState/buildCredential; published = the LAST list handed to SetUsers decides, the empty list included); C05_silent_after_reload(_udp) restate the silent-server theorems over every start list and reload history under key separation of the AEAD (a header sealed under one key opens under no other); C05_admission_rule / C05_no_secret_no_credential / C05_duplicate_names_not_registered say that only entries with a secret become credentials. Tied to the code by the driver: after every SetServerUsers (reload histories and malformed configurations, both transports) the real registry's compiled table is compared with compile_users of the last list, and handshakes sealed with removed, never-registered, name-derived and skipped-entry credentials must meet silence",
